@@ -42,6 +42,12 @@ func c18KeyByte(c byte) bool { // what Set accepts in a key value (pathutils.Ind
 	return c >= 'a' && c <= 'z' || c >= 'A' && c <= 'Z' || c >= '0' && c <= '9' || c == '_' || c == '-' || c == '.'
 }
 
+// c18ValByte: what a STORED key value may hold. Updates with a scalar value are limited to c18KeyByte
+// (CheckKeyValue), but deletes and JSON-valued updates only pass IsPathValid, which also admits ':' and '='
+// inside a segment (base64 text, distinguished names, prefixed identities). Key NAMES are YANG identifiers,
+// so a key group reads "[name=" up to the FIRST '=' and the value runs to the closing bracket.
+func c18ValByte(c byte) bool { return c18KeyByte(c) || c == '=' || c == ':' }
+
 // c18Parse splits a stored path into elements. It accepts exactly the canonical form the system
 // stores (utils.StrPath): /name[k=v][k2=v2]/..., key names ascending, no escapes.
 func c18Parse(p string) ([]c18Elem, bool) {
@@ -72,7 +78,7 @@ func c18Parse(p string) ([]c18Elem, bool) {
 			k := p[ks:i]
 			i++
 			vs := i
-			for i < len(p) && c18KeyByte(p[i]) {
+			for i < len(p) && c18ValByte(p[i]) {
 				i++
 			}
 			if i == vs || i >= len(p) || p[i] != ']' {
@@ -589,6 +595,7 @@ func c18Check(c c18Case, rep c17Rep) error {
 	ops := c17OpsFor(c.Ver)
 	rep.Class(fmt.Sprintf("api:v%d", c.Ver))
 	if len(c.PVs) == 0 || len(c.PVs) > 25 {
+		rep.Class("skip:1")
 		return vstat.ErrSkip
 	}
 
@@ -599,13 +606,16 @@ func c18Check(c c18Case, rep c17Rep) error {
 	for _, pv := range c.PVs {
 		es, ok := c18Parse(pv.Path)
 		if !ok || seen[pv.Path] {
+			rep.Class("skip:2")
 			return vstat.ErrSkip
 		}
 		seen[pv.Path] = true
 		if !pv.Deleted && (pv.Val == nil || !pv.Val.valid() || len(es[len(es)-1].Keys) != 0) {
+			rep.Class("skip:3")
 			return vstat.ErrSkip
 		}
 		if pv.Val != nil && !pv.Val.valid() {
+			rep.Class("skip:4")
 			return vstat.ErrSkip
 		}
 		all = append(all, c18Parsed{pv, es})
@@ -613,16 +623,19 @@ func c18Check(c c18Case, rep c17Rep) error {
 	}
 	schema, err := c18SchemaOf(paths)
 	if err != nil {
+		rep.Class("skip:5")
 		return vstat.ErrSkip
 	}
 	for _, a := range all {
 		sp := c18SchemaPath(a.es)
 		if a.pv.Val != nil { // a leaf (live, or tombstoned with its value): never a list node, never an interior node
 			if _, isList := schema[sp]; isList {
+				rep.Class("skip:6")
 				return vstat.ErrSkip
 			}
 			for _, b := range all {
 				if strings.HasPrefix(c18SchemaPath(b.es), sp+"/") {
+					rep.Class("skip:7")
 					return vstat.ErrSkip
 				}
 			}
@@ -630,6 +643,7 @@ func c18Check(c c18Case, rep c17Rep) error {
 		// every element on a list node names an entry; only a tombstone may end on the whole list
 		for i := range a.es {
 			if _, isList := schema[c18SchemaPath(a.es[:i+1])]; isList && len(a.es[i].Keys) == 0 && !(a.pv.Deleted && i == len(a.es)-1) {
+				rep.Class("skip:8")
 				return vstat.ErrSkip
 			}
 		}
